@@ -301,6 +301,12 @@ def render_file(path, module, moddir, ctx):
             info.obligations[oid] = {'kind': 'assumed', 'props': [], 'fn': key, 'text': 'external_body: real predicate == derived copy (discharged by Kani on the compiled crate)'}
             info.derived.append({'fn': key, 'kind': 'predicate', 'copy': copy.strip()})
 
+        # vacuity probe (thorough tier): `assert(false)` at the entry of the real body must be REJECTED, i.e. the
+        # precondition is satisfiable (an `ensures false` would be assumed by callers and hide their probes)
+        if ctx.get('probe') and f.has_body and clauses and not any('external_body' in a for a in attrs):
+            oid = key + '/vacuity-probe'
+            prologue = 'proof { assert(false); } // CELL %s\n' % oid + prologue
+            info.obligations[oid] = {'kind': 'probe', 'props': [], 'fn': key, 'text': 'must fail: assert(false) at the entry of %s under its precondition' % key}
         # signature rewrite
         new_sig = sigtext
         if f.ret_span and clauses:
@@ -354,13 +360,13 @@ def render_file(path, module, moddir, ctx):
 
 
 MARK = re.compile(r'/\*@(OB|FN|ENDFN|GHOST|ENDGHOST|DERIVED|ENDDERIVED|LEMMA|ENDLEMMA):?(.*?)@\*/')
-CELL = re.compile(r'//\s*CELL\s+(\S+)')
+CELL = re.compile(r'//\s*CELL\s+(.+?)\s*$')
 
 
-def generate(repo, contracts_dir, lemma_texts=(), out_path=None, opaque=()):
+def generate(repo, contracts_dir, lemma_texts=(), out_path=None, opaque=(), probe=False):
     fncontracts, ghosts = vspec.load_dir(contracts_dir)
     info = GenInfo()
-    ctx = {'info': info, 'fncontracts': fncontracts, 'ghosts': ghosts, 'repo': repo, 'opaque': set(opaque)}
+    ctx = {'info': info, 'fncontracts': fncontracts, 'ghosts': ghosts, 'repo': repo, 'opaque': set(opaque), 'probe': probe}
     srcdir = os.path.join(repo, 'src')
     body = render_file(os.path.join(srcdir, 'lib.rs'), '', srcdir, ctx)
     # lost anchors: contracts / ghost sections whose item no longer exists. They are recorded, not fatal: the caller
